@@ -106,7 +106,9 @@ def run(ctx):
     ctx.tlc_mc(SPEC, "Backoff.tla", "MCBackoff.cfg", timeout=3600)
     if not q:
         for cfg, want in (("MCPeeringDev1.cfg", "NoTimerAfterStop"), ("MCPeeringDev1Dial.cfg", "NoDialAfterStop"),
-                          ("MCPeeringDev2.cfg", "ScheduledWhileRunning")):
+                          ("MCPeeringDev2.cfg", "ScheduledWhileRunning"),
+                          # handler.stop() clearing the timer BEFORE cancelling: a goroutine between the sub-steps re-arms
+                          ("MCPeeringStopOrder.cfg", "NoTimerAfterStop")):
             r = ctx.tlc_mc(SPEC, "Peering.tla", cfg, timeout=3600, expect_violation=want)
             if not (r["violated"] and want in r["violated"]):
                 ctx.broken("model sensitivity: %s should violate %s but gave %s" % (cfg, want, r["violated"]))
